@@ -68,6 +68,18 @@ CHECKS = {
         note='Trusted: gcc 12 ASan/UBSan; leaks not judged; a timeout is re-run alone with 10x the limit before it is called a hang.',
         technique='exhaustive single-mutation and boundary-shape enumeration on sanitizer builds of the real tools',
         ref='3/C06'),
+    'C07': dict(
+        text='Exhaustive input x configuration enumeration on the real printer: every ordered pair of the 7 arithmetic and of the 3 logical operators in the forms "a o b o c", '
+             '"(a o b) o c", "a o (b o c)", relational/logical/arithmetic mixes and unary operators; every literal kind (exponent reals, quotes in strings, long strings, encoded '
+             'strings, binary, logical, ?, PI, CONST_E), aggregate initialisers with repetition; one schema per WHERE-rule shape (unlabelled, labelled, intervals, IN, QUERY, LIKE, '
+             'index, TYPEOF, group reference, nested query) and per statement kind (17); UNIQUE, RULE and supertype-expression shapes; the generated feature family and shipped schemas; '
+             'configurations: every line length 10..160, 200, 1000, 99999 on 5 schemas and 12 lengths on the others (thorough: full sweep on all), -t, -c. For each the output must be '
+             'accepted by check-express, have the same expref normal form as the source per declaration, and printing it again must give the same token stream.',
+        note='Trusted: vlib/expref.py (tokenizer + precedence-based removal of redundant parentheses incl. associative same-operator groups, case folding outside strings, numeric '
+             'literals by kind and value, re-joined split strings, declaration/LOCAL/interface order ignored, identifier lists expanded). Comments are not compared. Within one '
+             'declaration only the first difference is reported, which is why the family has one schema per construct.',
+        technique='exhaustive operator-pair / construct enumeration x exhaustive line-length sweep on the real printer + normal-form equivalence and fixed-point oracles',
+        ref='3/C07'),
     'C08': dict(
         text='Exhaustive program x input enumeration against a legality oracle: 160 (thorough ~250) inheritance graphs of 3-6 entities (stars, chains, two-level trees, '
              'diamonds, two roots, abstract towers) with every ONEOF/AND/ANDOR constraint tree of depth <= 2 over the direct subtypes, every subset of subtypes left '
